@@ -50,8 +50,17 @@ func runC07(r *hx.Run) error {
 		r.Count("rgb-grey-exact")
 	}
 	if r.Thorough {
-		for v := uint32(0); v < 1<<24; v++ {
-			emit(vaxis.HexColor(v))
+		// all 2^24 direct colours, 256 per line (blue channel packed)
+		const hexd = "0123456789abcdef"
+		buf := make([]byte, 512)
+		for rr := 0; rr < 256; rr++ {
+			for gg := 0; gg < 256; gg++ {
+				for bb := 0; bb < 256; bb++ {
+					i := uint8(uint32(vaxis.VerifAsIndex(vaxis.RGBColor(uint8(rr), uint8(gg), uint8(bb)))))
+					buf[2*bb], buf[2*bb+1] = hexd[i>>4], hexd[i&15]
+				}
+				r.Emit(fmt.Sprintf("asrange %d %d", rr, gg), string(buf))
+			}
 		}
 		r.Add("rgb-all", 1<<24)
 		r.Note("exhaustive", true)
